@@ -6,13 +6,15 @@ PROPS["C14"] = {
                  "float VALUE: binary64 modelled as exact integer arithmetic; every accepted text is read as the nearest double (ties to even) of the rational it denotes, "
                  "sign kept also on zero, for every byte string (C14_float_read_nearest, C14_float_ok_iff); the declarative nearest-even reading determines the bits "
                  "(C14_float_nearest_unique), hence any written text whose declarative reading is the value reads back as exactly that value (C14_float_write_read_model); "
+                 "the model's writer (shortest digits that read back, closest, ties to even, printed positionally) round-trips for every finite 64-bit pattern "
+                 "(C14_float_write_read) and its outputs are reproduced by read-then-write (C14_float_read_write); "
                  "timestamp write/read at four precisions for every valid civil instant of years 0-9999, "
                  "timestamp read/write and acceptance = the strict UTCTimestamp grammar, string identity, decimal write/read (written text reads back as the value "
                  "rounded half away from zero to the field's scale; unsigned decimals cut toward zero) and canonical decimal read/write. "
                  "Monitor on the implementation, every run: float read returns the declaratively nearest bits; float write yields a text of the grammar in %f-canonical form "
                  "that reads back (declaratively) to the same bits, and no text with one significant digit fewer, nor a closer one of the same length, does. "
-                 "Correspondence only: that strconv's shortest digits equal the model writer's (model-level write->read for all finite doubles is stated, "
-                 "C14_float_write_read_full, not proved), decimal exponent notation, udecimal's 19-digit limit.",
+                 "Correspondence only: that strconv's digits equal the model writer's (that the model writer's text is the shortest possible is stated, "
+                 "C14_float_write_shortest_full, not proved), decimal exponent notation, udecimal's 19-digit limit.",
         "note": "Lean kernel + propext/Classical.choice/Quot.sound; the model of fix_int.go/fix_boolean.go/fix_float.go(syntax, value read as 64-bit pattern, text written)/fix_utc_timestamp.go is tied to the code by "
                 "running both on the same generated texts each run; strconv.ParseFloat/FormatFloat are modelled by their contract (correct rounding; shortest round-tripping digits), time.Parse/shopspring internals are executed, not modelled",
         "rule": "seeded generation per value type: short strings over the type's alphabet plus near-miss characters, canonical texts, "
